@@ -4,8 +4,9 @@ import random, vlib
 
 def run(ctx):
     q = ctx.quick
-    r = ctx.tlc("NtpAcceptMC", "NtpAccept_exh.cfg", timeout=600, workers=8)
-    ctx.log("TLC exhaustive (2 crafted arrivals): %d distinct states" % r["distinct"])
+    if not q:
+        r = ctx.tlc("NtpAcceptMC", "NtpAccept_exh.cfg", timeout=900, workers=8)
+        ctx.log("TLC exhaustive (2 crafted arrivals): %d distinct states" % r["distinct"])
     r2 = ctx.tlc("NtpAcceptMC", "NtpAccept_nts.cfg", timeout=600, workers=8)
     # cases: every single crafted datagram (<= 2 fields away from genuine) before / instead of the genuine one
     g = ctx.tlc("NtpAcceptMC", "NtpAccept_gen1.cfg", workers=1, timeout=600, tag="gen1")
@@ -28,7 +29,7 @@ def run(ctx):
     nval = len(cases)
     if not ok:
         bad = recs[l - 1] if l else None
-        g0 = dict(src="server", len="ok", li=0, vn=4, mode=4, stratum=1, origin="rx" if bad and bad["il"] else "tx", txrx="after", nts="absent")
+        g0 = dict(src="server", dst="client", l4="udp", len="ok", li=0, vn=4, mode=4, stratum=1, origin="rx" if bad and bad["il"] else "tx", txrx="after", nts="absent")
         dev = sorted(k for k in g0 if bad and bad["d"][k] != g0[k])
         ctx.violation("C05 accepted %s" % "+".join(dev), "client reported an offset on the basis of %s" % bad,
                       {"record": bad, "case": cases[bad["case"]] if bad else None})
